@@ -101,7 +101,7 @@ func subsetHash(s string) uint32 {
 // Replies: T <x> (careful: about to run x), R ... per transition, V ... per
 // enumeration violation, S <stats json>, D (job done).
 func WorkerMain(check *Check, tier string, in io.Reader, out io.Writer) {
-	debug.SetMaxStack(32 << 20)
+	debug.SetMaxStack(4 << 20)
 	units := check.Units(tier)
 	w := bufio.NewWriterSize(out, 1<<16)
 	sc := bufio.NewScanner(in)
@@ -198,7 +198,7 @@ func Fatalf(format string, a ...interface{}) {
 // ReplayFile re-executes a recorded violation without the explorer: a plain
 // loop over the ops plus the oracle. Exit code 1 iff the rule fires again.
 func ReplayFile(c *Check, rp Replay) int {
-	debug.SetMaxStack(32 << 20)
+	debug.SetMaxStack(4 << 20)
 	units := c.Units(rp.Tier)
 	if rp.Unit >= len(units) {
 		Fatalf("unit %d out of range", rp.Unit)
